@@ -55,6 +55,13 @@ func (c *VerifCtx) verifyFunction(ct *Contract) (res *FuncResult) {
 		v := FreshV(p.Type(), "arg."+p.Name())
 		ex.wellFormed(st0, v, TrueT)
 		args = append(args, v)
+		if iv, isI := v.(IfaceV); isI && ex.rootReader == nil {
+			switch typeKey(p.Type()) {
+			case "io.Reader", "io.ReadWriter", "net.Conn", "io.ReadWriteCloser":
+				c := iv
+				ex.rootReader = &c
+			}
+		}
 		ex.addProbes("arg."+p.Name(), v, p.Type(), st0, 3)
 	}
 	if ct.WithInit {
@@ -345,7 +352,7 @@ func (ex *Exec) frameCheck(ct *Contract, info *types.Info, env *SpecEnv, pre, po
 			}
 			continue
 		}
-		if name == "alloc" || name == "chcap" {
+		if name == "alloc" || name == "chcap" || strings.HasPrefix(name, "ctxmeta|") || name == "chplain" {
 			continue
 		}
 		fin := post.heap[name]
@@ -550,6 +557,35 @@ func mutexKey(p Value) (string, bool) {
 		return "", false
 	}
 	return rootFieldKey(x)
+}
+
+// waitHolding (C18): waiting for goroutines while holding a mutex that those
+// goroutines may acquire deadlocks when one of them is blocked on it.
+func (ex *Exec) waitHolding(st *State, wg Value, pc *Term, pos token.Pos) {
+	if ex.dry > 0 || !contains(ex.curProps, "C18") {
+		return
+	}
+	key, ok := mutexKey(wg)
+	if !ok {
+		return
+	}
+	var mus []string
+	for m := range ex.ctx.wgLocks[key] {
+		mus = append(mus, m)
+	}
+	sort.Strings(mus)
+	saved := ex.clauseProps
+	ex.clauseProps = []string{"C18"}
+	defer func() { ex.clauseProps = saved }()
+	for _, m := range mus {
+		rank, ok := ex.ctx.lockRank[m]
+		if !ok {
+			continue
+		}
+		held := st.get(rankCounter(rank), SBV(64))
+		ex.oblige("lock", "wait-holding "+m, pos, pc, Eq(held, BV(0, 64)),
+			"no mutex "+m+" is held while waiting on "+key+": the goroutines waited for acquire it")
+	}
 }
 
 func rankCounter(rank int) string { return fmt.Sprintf("ghost|lockheld.%02d", rank) }
